@@ -62,6 +62,7 @@ def stepOp (g : Spec) (cur : DNA) (op : J) : Option DNA :=
   match op.getStr? "op" with
   | some "next" => (g.next cur).bind id
   | some "clone" | some "renumber" | some "redict" | some "rejson" => some cur
+  | some "given" => (op.get? "tree").bind dnaOfJ
   | some "swap" =>
     match (op.get? "path").bind pathOfJ, op.getNat? "i", op.getNat? "j" with
     | some p, some i, some j => some (swapAt p i j cur)
